@@ -57,24 +57,24 @@ func NewISO3k3y(f afero.File) (*ISO3k3y, error) {
 func (iso *ISO3k3y) Read(b []byte) (int, error) {
 	readStart := iso.offset
 
+	// reader may return data together with error (i.e. io.EOF) so process data first
 	read, err := iso.privateFile.Read(b)
-	if err != nil || read == 0 {
-		return read, err
+	if read > 0 {
+		iso.offset += sizeBytes(read)
+		iso.clear3k3yData(readStart, b[:read])
 	}
 
-	iso.offset += sizeBytes(read)
-	iso.clear3k3yData(readStart, b[:read])
-	return read, nil
+	return read, err
 }
 
 func (iso *ISO3k3y) ReadAt(b []byte, off int64) (int, error) {
+	// ReadAt returns data together with io.EOF when file end reached so process data first
 	read, err := iso.privateFile.ReadAt(b, off)
-	if err != nil || read == 0 {
-		return read, err
+	if read > 0 {
+		iso.clear3k3yData(sizeBytes(off), b[:read])
 	}
 
-	iso.clear3k3yData(sizeBytes(off), b[:read])
-	return read, nil
+	return read, err
 }
 
 func (*ISO3k3y) clear3k3yData(start sizeBytes, data []byte) {
